@@ -24,7 +24,7 @@ CHECKS = {
  "C02": ("exploration",
          "bounded-exhaustive program enumeration with a fixed-point certificate check of the implementation's own output",
          "DESIGN.md §4 C02",
-         "All statement sequences up to length 4 (quick) / 5 (thorough) over 27 items placed at the zero-page boundary, all 3-level scoping shapes x 10 path forms, and all 1-3 segment configurations with cross references are assembled by the real multi-pass code generator; every successful build is certified by an independent walker: labels and block start/end symbols equal the cursor, every statement's bytes equal the ISA/evaluator result under the implementation's own final symbols, nothing unexplained in the image, segments.x.start/end and the VICE export agree. Sound for programs with several fixed points.",
+         "All statement sequences up to length 4 (quick) / 5 (thorough) over 28 items (incl. a relative reservation) placed at the zero-page boundary, all 3-level scoping shapes x 10 path forms, all 1-3 segment configurations with cross references, and promotion ladders that need up to 45 (quick) / 95 (thorough) passes to settle are assembled by the real multi-pass code generator; every successful build is certified by an independent walker: labels and block start/end symbols equal the cursor, every statement's bytes equal the ISA/evaluator result under the implementation's own final symbols, nothing unexplained in the image, segments.x.start/end and the VICE export agree. Sound for programs with several fixed points.",
          "Small-scope: two label names, bounded length; the walker's scoping resolver (innermost-outward, super, dotted) and ISA model are trusted; programs with constructs outside the walker are counted, not judged."),
  "C03": ("exploration",
          "bounded-exhaustive enumeration of expression trees against a reference evaluator (batched, failing batches bisected)",
@@ -39,7 +39,7 @@ CHECKS = {
  "C07": ("exploration",
          "bounded-exhaustive enumeration of construct nests, differential against an independent AST-level hand expansion",
          "DESIGN.md §4 C07",
-         "Every nest of depth <= 2 (quick) / 3 (thorough, capped as stated in the evidence) over 59 construct variants (.loop, .if/else, macros, .const, scopes, 8 import forms) x leaf bodies is assembled and compared byte for byte with the program obtained by expanding the constructs by hand at AST level; a program that is rejected while its expansion assembles is a violation.",
+         "Every nest of depth <= 2 (quick) / 3 (thorough, capped as stated in the evidence) over 79 construct variants (.loop, .if/else with 7 conditions - among them constants defined only at the end of the file - and 5 branch shapes incl. unselected branches that define the names the program uses, macros, .const, scopes, 8 import forms) x 14 leaf bodies (incl. references to the enclosing block's start/end) is assembled and compared byte for byte with the program obtained by expanding the constructs by hand at AST level; a program that is rejected while its expansion assembles is a violation.",
          "The hand expansion implements the documented meaning; pairs whose outputs differ but are both valid fixed points (certificate checker) are counted as ambiguous, not judged."),
  "C09": ("exploration",
          "bounded-exhaustive configuration enumeration (radius-bounded around base configurations) against a bank layout reference model, on the real executable",
